@@ -465,7 +465,7 @@ theorem TriPixels.nextFuel_moved {d : Pt} (fuel : Nat) {it' it : TriPixels} (h :
     simp only []
     -- the branch that fetches the next scanline
     have hbranch : OptRel (OptRel (fun (r' r : (Pt × Nat) × TriPixels) => r'.1 = shiftPx r.1 d ∧ TPR d r'.2 r.2))
-        (match li'.next with
+        (match li'.nextLoop with
           | none => none
           | some none => some none
           | some (some ((nextLine, nextType), l2)) =>
@@ -475,7 +475,7 @@ theorem TriPixels.nextFuel_moved {d : Pt} (fuel : Nat) {it' it : TriPixels} (h :
                   | .stroke => sc'
                   | .fill => fc'
                 fillColor := fc', strokeColor := sc' })
-        (match li.next with
+        (match li.nextLoop with
           | none => none
           | some none => some none
           | some (some ((nextLine, nextType), l2)) =>
@@ -485,14 +485,14 @@ theorem TriPixels.nextFuel_moved {d : Pt} (fuel : Nat) {it' it : TriPixels} (h :
                   | .stroke => sc'
                   | .fill => fc'
                 fillColor := fc', strokeColor := sc' }) := by
-      have hn := TriScanlines.next_moved hlines
-      cases n' : li'.next with
+      have hn := TriScanlines.nextLoop_moved hlines
+      cases n' : li'.nextLoop with
       | none =>
-        cases n : li.next with
+        cases n : li.nextLoop with
         | none => trivial
         | some r => rw [n', n] at hn; exact hn.elim
       | some r' =>
-        cases n : li.next with
+        cases n : li.nextLoop with
         | none => rw [n', n] at hn; exact hn.elim
         | some r =>
           rw [n', n] at hn
@@ -591,7 +591,9 @@ theorem TriPixels.toListFuel_moved {d : Pt} (fuel : Nat) {it' it : TriPixels} (h
                 subst hrec'
                 exact rfl
 
-theorem TriScanlines.empty_next : TriScanlines.empty.next = some none := by rfl
+theorem TriScanlines.empty_next : TriScanlines.empty.next = some (none, TriScanlines.empty) := by rfl
+
+theorem TriScanlines.empty_nextLoop : TriScanlines.empty.nextLoop = some none := by rfl
 
 /-- The pixel iterator built on the empty scanline iterator yields nothing. -/
 theorem TriPixels.empty_toListFuel (fuel : Nat) (cc fc sc : Option Nat) :
@@ -604,7 +606,7 @@ theorem TriPixels.empty_toListFuel (fuel : Nat) (cc fc sc : Option Nat) :
         ⟨TriScanlines.empty, Scanline.newEmpty 0, cc, fc, sc⟩ = some none := by
       show TriPixels.nextFuel 5 _ = _
       unfold TriPixels.nextFuel
-      cases cc <;> simp [Scanline.next, Scanline.newEmpty, TriScanlines.empty_next]
+      cases cc <;> simp [Scanline.next, Scanline.newEmpty, TriScanlines.empty_nextLoop]
     simp only [e, Option.bind_eq_bind, Option.bind_some, pure]
 
 /-- `StyledPixelsIterator::new` of the triangle, both sides. -/
@@ -630,20 +632,23 @@ theorem TriPixels.new_moved (t : Tri) (style : TriStyle) (d : Pt) (hg : TriGuard
       | none => rw [n', n] at hn; exact hn.elim
       | some r =>
         rw [n', n] at hn
-        cases r' with
+        obtain ⟨o', si'⟩ := r'
+        obtain ⟨o, si⟩ := r
+        obtain ⟨h0, h3⟩ := hn
+        cases o' with
         | none =>
-          cases r with
-          | some v => exact hn.elim
+          cases o with
+          | some v => exact h0.elim
           | none =>
             left
-            exact ⟨_, _, rfl, rfl, hab, SR0_newEmpty d 0 0, rfl, rfl, rfl⟩
+            exact ⟨_, _, rfl, rfl, h3, SR0_newEmpty d 0 0, rfl, rfl, rfl⟩
         | some v' =>
-          cases r with
-          | none => exact hn.elim
+          cases o with
+          | none => exact h0.elim
           | some v =>
-            obtain ⟨⟨l', ty'⟩, si'⟩ := v'
-            obtain ⟨⟨l, ty⟩, si⟩ := v
-            obtain ⟨h1, h2, h3⟩ := hn
+            obtain ⟨l', ty'⟩ := v'
+            obtain ⟨l, ty⟩ := v
+            obtain ⟨h1, h2⟩ := h0
             simp only at h1 h2 h3
             subst h1 h2
             left
